@@ -79,6 +79,20 @@ def denoteAll : List ImportSet → (LibName → Option Bindings) → Option Bind
     | some a, some b => some (a ++ b)
     | _, _ => none
 
+/-- the same bindings in another order (or both undefined) -/
+def PermOpt : Option Bindings → Option Bindings → Prop
+  | some a, some b => a.Perm b
+  | none, none => True
+  | _, _ => False
+
+/-- `ex'` gives every library the export list `ex` gives it, in some other order: what a different
+iteration order of the `HashMap`s holding the exports amounts to -/
+def PermExports (ex ex' : LibName → Option Bindings) : Prop := ∀ n, PermOpt (ex n) (ex' n)
+
+/-- every set of the declaration is admissible -/
+def AdmissibleAll (sets : List ImportSet) (ex : LibName → Option Bindings) : Prop :=
+  ∀ s ∈ sets, ∀ bs, denote s ex = some bs → Admissible bs
+
 /-- override: `m` where it is defined, `old` elsewhere -/
 def override (m old : String → Option Value) (x : String) : Option Value :=
   match m x with
